@@ -39,6 +39,11 @@ CLAIMS = {
   text="Exploration: pairs of trees (independent, permuted copies, copies with uniquely tagged leaves inserted on either side) are diffed and then driven through random sequences of String/IsDeepEqual/Sort/Tag/CompareAgain. After CompareNodes and after every step: each entry side is, by identity, a node of the correct input at the entry's depth and never both absent; every input node is represented under the entry representing its parent; unique leaves give exactly one one-sided entry on the correct side; IsDeepEqual equals 'all two-sided' at every entry; deep-equal inputs give an all-two-sided diff; both inputs' GEDCOM text and node counts are unchanged. One documented-behaviour finding class (C08-F1) is excluded and counted.",
   note="Trusted: 'equal' for coverage = Equals either way or same tag/value/pointer; deep-equal premise computed with DeepEqual both ways.",
   design="6.8"),
+ "C09": dict(
+  technique="invariant-checking PBT (rapid) over generated tree/list pairs: two-way coverage, list-size bounds, instrumented merge function, freshness via identity sets and post-merge mutation",
+  text="Exploration: MergeNodes on independent and overlapping (edited/permuted copy) tree pairs, MergeNodes(t,t), the error contract, and MergeNodeSlices on list pairs with the equality, always-merge and never-merge functions. Oracles: every input node below the roots is represented by an equal node under an equal parent and every result node stems from input nodes; max(|l|,|r|) <= |result| <= |l|+|r| (= max / = sum for always / never); an instrumented merge function shows each element merged at most once and merged results never offered again; self-merge keeps the node count when no two siblings are equal; the result shares no node with the inputs, inputs are unchanged by the merge and by a later mutation of the result. One documented-behaviour finding class (C09-F1) is excluded and counted.",
+  note="Trusted: 'equal' = Equals either way or same tag/value/pointer; the caller-identified roots are not required to be equal; merges go into a fresh target document.",
+  design="6.9"),
  "C12": dict(
   technique="metamorphic PBT (rapid) + exhaustive string-pair enumeration: range, operand-swap symmetry, identity, monotonicity, shift invariance, neutral 0.5",
   text="Exploration: all ordered string pairs over {a,b} up to length 9 (thorough 10) and {a,b,c} up to 5 (6) are enumerated; random name pairs (punctuation, case, digits, other scripts; independent or edited copies) x boost/prefix parameters, random date triples (all shapes, keywords, ranges) x MaxYears, and pairs of random family graphs x default/random options (weights summing to 1) are generated. Oracles: every score in [0,1] and not NaN, f(a,b)=f(b,a) for strings, dates, individuals, lists, families and surrounding similarity, 1 on identical names/dates, date similarity monotone in |Years difference|, 0 beyond MaxYears, unchanged under a 400-year shift, exactly 0.5 for the documented missing-information cases and list padding.",
